@@ -44,6 +44,7 @@ def judge_all(case):
 
 def rank_group(s, ka, hybrid=False):
     h = s.harness(L=1, cap_bs=max(2 * ka, 2), rank_bits=bits_for(2 * (ka + 1) + 1), hybrid=hybrid, field_bits=(3 if hybrid else 0))
+    s.ri_sites(h)
     A, _ = h.range_('A', ka, allow_any=True)
     B, Bbs = h.range_('B', 1, allow_any=True)
     v = h.version('v')
